@@ -290,7 +290,7 @@ theorem getOrCreate_good (s : St) (k : Nat) (sym : Bool) (nat : Nat) (owner drai
       | ok =>
         refine Good.trans (Good.trans (dropStale_good s k)
           (Good.trans (epochCounter_good _ d) (acquireTicket_good _ drain))) ?_
-        exact allocEp_good _ _ (by simp [freshEp]) (by simp [freshEp])
+        exact allocEp_good _ _ (by simp [createRecord, freshEp]) (by simp [createRecord, freshEp])
 
 theorem refreshTtl_fields (E : Ep) (now : Nat) :
     (refreshTtl E now).closed = E.closed ∧ (refreshTtl E now).connCloses = E.connCloses ∧
@@ -391,6 +391,7 @@ theorem advance_good (n fuel : Nat) (s : St) (dt : Nat) : Good s (advance n fuel
 theorem invalidate_good (s : St) (d : Nat) : Good s (invalidate s d).1 := by
   unfold invalidate
   simp only
+  unfold invalBump
   refine Good.trans (epochCounter_good s d)
     (Good.trans (Good.of_eps (s := (epochCounter s d).1) (s' := bumpEpoch (epochCounter s d).1 (epochCounter s d).2) rfl rfl) ?_)
   exact foldl_good retire retire_good _ _
